@@ -15,17 +15,23 @@ open ZoektModel ZoektModel.Proto
 All strings are hex (`-` = empty string) and stay hex inside the model.
 -/
 
+/-- hex strings: the empty string is spelled `-` on the wire and is "" inside the model -/
+def unS (s : String) : String := if s == "-" then "" else s
+def toS (s : String) : String := if s.isEmpty then "-" else s
+
 def listOf (sep : String) (s : String) : List String := if s == "_" then [] else s.splitOn sep
 def showL (sep : String) (l : List String) : String := if l.isEmpty then "_" else sep.intercalate l
+def listS (s : String) : List String := (listOf "," s).map unS
+def showS (l : List String) : String := showL "," (l.map toS)
 
 def parseRepo (s : String) : Option RepoMeta :=
   match s.splitOn ":" with
   | [n, t, p, bs, sp, rest] => do
-    pure { name := n, tomb := ← bool? t, prio := ← p.toInt?, branches := listOf "," bs, subPaths := listOf "," sp, rest := rest }
+    pure { name := unS n, tomb := ← bool? t, prio := ← p.toInt?, branches := listS bs, subPaths := listS sp, rest := rest }
   | _ => none
 
 def showRepo (r : RepoMeta) : String :=
-  s!"{r.name}:{showBool r.tomb}:{r.prio}:{showL "," r.branches}:{showL "," r.subPaths}:{r.rest}"
+  s!"{toS r.name}:{showBool r.tomb}:{r.prio}:{showS r.branches}:{showS r.subPaths}:{r.rest}"
 
 def parseSec (s : String) : Option Sec :=
   match s.splitOn "-" with
@@ -35,21 +41,21 @@ def parseSec (s : String) : Option Sec :=
 def parseSym (s : String) : Option (Option Sym) :=
   if s == "nil" then some none else
   match s.splitOn "." with
-  | [k, p, pk] => some (some ⟨k, p, pk⟩)
+  | [k, p, pk] => some (some ⟨unS k, unS p, unS pk⟩)
   | _ => none
 
 def showSym : Option Sym → String
   | none => "nil"
-  | some s => s!"{s.kind}.{s.parent}.{s.parentKind}"
+  | some s => s!"{toS s.kind}.{toS s.parent}.{toS s.parentKind}"
 
 def parseDoc (s : String) : Option Doc :=
   match s.splitOn ":" with
   | repo :: n :: c :: mask :: sub :: lang :: cat :: secs :: syms :: tl => do
     let rd ← match tl with
-      | [] => some "-"
-      | [x] => some x
+      | [] => some ""
+      | [x] => some (unS x)
       | _ => none
-    pure { repo := ← repo.toNat?, name := n, content := c, mask := ← mask.toNat?, sub := ← sub.toNat?,
+    pure { repo := ← repo.toNat?, name := unS n, content := unS c, mask := ← mask.toNat?, sub := ← sub.toNat?,
            lang := ← lang.toNat?, cat := ← cat.toNat?, secs := ← (listOf "," secs).mapM parseSec,
            syms := ← (listOf "," syms).mapM parseSym, redetect := rd }
   | _ => none
@@ -57,19 +63,16 @@ def parseDoc (s : String) : Option Doc :=
 def showDoc (d : Doc) : String :=
   let secs := showL "," (d.secs.map fun s => s!"{s.start}-{s.stop}")
   let syms := showL "," (d.syms.map showSym)
-  s!"{d.repo}:{d.name}:{d.content}:{d.mask}:{d.sub}:{d.lang}:{d.cat}:{secs}:{syms}"
+  s!"{d.repo}:{toS d.name}:{toS d.content}:{d.mask}:{d.sub}:{d.lang}:{d.cat}:{secs}:{syms}"
 
 def parseShard (s : String) : Option Shard :=
   match s.splitOn "~" with
   | [rs, ds, ls] => do
-    pure { repos := ← (listOf ";" rs).mapM parseRepo, docs := ← (listOf ";" ds).mapM parseDoc, langs := listOf "," ls }
+    pure { repos := ← (listOf ";" rs).mapM parseRepo, docs := ← (listOf ";" ds).mapM parseDoc, langs := listS ls }
   | _ => none
 
 def showShard (sh : Shard) : String :=
-  showL ";" (sh.repos.map showRepo) ++ "~" ++ showL ";" (sh.docs.map showDoc) ++ "~" ++ showL "," sh.langs
-
-/-- the model works on hex strings: "" is spelled `-` -/
-def fixEmpty (sh : Shard) : Shard := sh
+  showL ";" (sh.repos.map showRepo) ++ "~" ++ showL ";" (sh.docs.map showDoc) ++ "~" ++ showS sh.langs
 
 def parseShards (s : String) : Option (List Shard) :=
   if s == "-" then some [] else (s.splitOn "#").mapM parseShard
@@ -83,6 +86,7 @@ def handle (line : String) : String :=
     match parseShards ss with
     | none => badCase "shards"
     | some shards =>
+      if !shards.all wfB then badCase "input outside the theorems' hypotheses (wfB)" else
       let model := match merge shards with
         | none => "err"
         | some out => "ok " ++ showShard out
@@ -100,6 +104,7 @@ def handle (line : String) : String :=
     match parseShard s with
     | none => badCase "shard"
     | some sh =>
+      if !wfB sh then badCase "input outside the theorems' hypotheses (wfB)" else
       let model := match explode sh with
         | none => "err"
         | some outs => "ok " ++ showShards outs
